@@ -1,8 +1,9 @@
 import NasdaqModel.Model.BinCodec
 /-
-C01 — machine-checked counterexamples: where the code *as it is* (the model transcribes it) violates the full statements
-`C01_len_is_len`, `C01_fixed_width` and the round trip, i.e. why `Props/C01.lean` carries `…_partial` theorems and why `wf`
-excludes these values.  Each witness is also in `corpus/C01/` and replayed on the implementation on every run.
+C01 — regressions.  These inputs violated the property before the repairs c9480ef (fixed strings truncated to their width, an
+empty char padded), 2761a7d (fixed-width decode strips only the pad character) and 8ed2437 (a record without fields encodes to
+zero bytes) in /repo; the theorems pin what the repaired code — the model transcribes it — does with them now.  The same inputs
+are in `corpus/C01/` and run first on the implementation on every check.
 -/
 namespace NasdaqModel.Witness.C01
 open NasdaqModel BinCodec
@@ -16,43 +17,29 @@ def readBack (t : Ty) (v : Val) (p : List Step) : Option Obs :=
     | .error _ => none
   | .error _ => none
 
-/-- `FixedAsciiString(3).to_bytes('abcd') = (3, b'abcd')`: reported length 3, four bytes produced, width exceeded. -/
-theorem C01_witness_fixed_overlong :
-    encode (.fixed false 3 false) (.str [97, 98, 99, 100]) = .ok (3, [97, 98, 99, 100]) := by decide
+/-- `FixedAsciiString(3).to_bytes('abcd')` was `(3, b'abcd')`; now three bytes are reported and produced -/
+theorem C01_regression_fixed_overlong :
+    encode (.fixed false 3 false) (.str [97, 98, 99, 100]) = .ok (3, [97, 98, 99]) := by decide
 
-/-- …so the full statements are false of the code as it is. -/
-theorem C01_witness_len_is_len_false : ¬ (∀ t v n bs, encode t v = .ok (n, bs) → n = bs.length) := by
-  intro h
-  have := h _ _ _ _ C01_witness_fixed_overlong
-  exact absurd this (by decide)
-
-theorem C01_witness_fixed_width_false :
-    ¬ (∀ iso k rj v n bs, encode (.fixed iso k rj) v = .ok (n, bs) → bs.length = k) := by
-  intro h
-  have := h _ _ _ _ _ _ C01_witness_fixed_overlong
-  exact absurd this (by decide)
-
-/-- the field after an over-long fixed string decodes misaligned: 0x4142 written, 0x6441 read -/
-theorem C01_witness_fixed_overlong_misaligns :
+/-- the field after an over-long fixed string is no longer misaligned: 0x4142 written, 0x4142 read -/
+theorem C01_regression_fixed_overlong_neighbour :
     readBack (.record (.cons 1 (.fixed false 3 false) .none (.cons 2 (.int 2 false true) .none .nil)))
-      (.recd [(1, .str [97, 98, 99, 100]), (2, .int 0x4142)]) [.field 2] = some (.int 0x6441) := by decide
+      (.recd [(1, .str [97, 98, 99, 100]), (2, .int 0x4142)]) [.field 2] = some (.int 0x4142) := by decide
 
-/-- `CharAscii.to_bytes('') = (1, b'')`: one byte reported, none produced. -/
-theorem C01_witness_char_empty : encode (.char false) (.str []) = .ok (1, []) := by decide
+/-- `CharAscii.to_bytes('')` was `(1, b'')`; now one byte (a space) -/
+theorem C01_regression_char_empty : encode (.char false) (.str []) = .ok (1, [32]) := by decide
 
-/-- `FixedIsoString(3)`: `'a\xa0'` is within the width and the charset and has no pad character at its ends, but reads back
-    as `'a'` — `str.strip()` removes more than the padding. -/
-theorem C01_witness_fixed_strip :
-    readBack (.fixed true 3 false) (.str [97, 160]) [] = some (.text [97])
-    ∧ read (.fixed true 3 false) (.str [97, 160]) [] = .text [97, 160] := by decide
+/-- `'a\xa0'` in a `FixedIsoString(3)` was read back as `'a'`; now unchanged -/
+theorem C01_regression_fixed_strip :
+    readBack (.fixed true 3 false) (.str [97, 160]) [] = some (.text [97, 160]) := by decide
 
 /-- the same in ASCII with a control character (`'\x1f'`), right-justified field -/
-theorem C01_witness_fixed_strip_ascii :
-    readBack (.fixed false 4 true) (.str [31, 65]) [] = some (.text [65]) := by decide
+theorem C01_regression_fixed_strip_ascii :
+    readBack (.fixed false 4 true) (.str [31, 65]) [] = some (.text [31, 65]) := by decide
 
-/-- a record (message body) without fields cannot be encoded: `segments[0]` raises IndexError; decoding it is fine -/
-theorem C01_witness_record_empty :
-    encode (.record .nil) (.recd []) = .error .index ∧ encodeMsg { ind := 1, cls := 0, fs := .nil } (.recd []) = .error .index := by
+/-- a record (message body) without fields raised IndexError; now it is zero bytes and the message is its id byte -/
+theorem C01_regression_record_empty :
+    encode (.record .nil) (.recd []) = .ok (0, []) ∧ encodeMsg { ind := 1, cls := 0, fs := .nil } (.recd []) = .ok (1, [1]) := by
   decide
 
 end NasdaqModel.Witness.C01
